@@ -6,43 +6,57 @@
    [ref_run c st rs]             : the responses of a fresh non-caching loader to each request, over the
                                    sources as they are at that moment (edits applied).
    A response to a Get is the template returned: name, which source entry (name, namespace) and which
-   version of it, globals.  *)
+   version of it, globals.  Sources can be edited, DELETED and re-created between requests.  *)
 From LiquidVerif Require Import Prelude Lru CachingLoader CachingLoader_Proofs.
 
 (* For every history (any length, any interleaving of get_template / get_template_async, namespaces by
    keyword argument or render context, globals, edits), every capacity and every store: with auto_reload
    on (and a loader whose uptodate check notices edits) every response of the caching loader EQUALS the
    response of a non-caching loader: same name, same source entry, CURRENT version, the globals of this
-   request; not-found stays not-found.
+   request; not-found stays not-found; a source deleted after it was cached gives TemplateNotFoundError (and
+   nothing else) on the next request, and a source re-created later is loaded again.
    _partial: under the side condition [keys_injective] (two requests of the history with the same cache
    key read the same source entry); without it the statement is false, see C23_key_collision_refuted. *)
 Theorem C23_transparent_partial : forall c st rs,
-  awaitable_uptodate c = false -> keys_injective c rs ->
+  awaitable_uptodate c = false -> missing_raises c = false -> keys_injective c rs ->
   auto_reload c = true -> detects c = true ->
   run fixed c (init c st) rs = ref_run c st rs.
 Proof. exact transparent_auto_reload. Qed.
 Print Assumptions C23_transparent_partial.
 
-(* the same equality for histories without edits, whatever auto_reload and the uptodate check are *)
+(* the same equality for histories in which no source is edited or deleted, whatever auto_reload and the
+   uptodate check are *)
 Theorem C23_transparent_no_edits_partial : forall c st rs,
-  awaitable_uptodate c = false -> keys_injective c rs -> no_edits rs ->
+  awaitable_uptodate c = false -> missing_raises c = false -> keys_injective c rs -> no_edits rs ->
   run fixed c (init c st) rs = ref_run c st rs.
 Proof. exact transparent_no_edits. Qed.
 Print Assumptions C23_transparent_no_edits_partial.
 
-(* for every history and configuration (auto_reload off, edits, any capacity): the template returned has
-   the name, the SOURCE ENTRY (name and namespace) and the globals the non-caching loader gives this
-   request; only the version may be older.  In particular templates of different namespaces (or names) are
-   never substituted for one another, and an error is returned exactly when the non-caching loader errs. *)
+(* for every history and configuration (auto_reload off, edits, deletions, any capacity): a template returned
+   is the one the non-caching loader builds for THIS request -- its name, its SOURCE ENTRY (name and namespace),
+   its globals -- from some version of that entry (only the version may be old; without auto-reload a deleted
+   source may still be served); and an error is returned only where the non-caching loader returns the same
+   error.  In particular templates of different namespaces (or names) are never substituted for one another. *)
 Theorem C23_no_cross_namespace_partial : forall c st rs,
-  awaitable_uptodate c = false -> keys_injective c rs ->
-  Forall2 sim (run fixed c (init c st) rs) (ref_run c st rs).
+  awaitable_uptodate c = false -> missing_raises c = false -> keys_injective c rs ->
+  all_ok c st rs (run fixed c (init c st) rs).
 Proof. exact no_substitution. Qed.
 Print Assumptions C23_no_cross_namespace_partial.
 
+(* deletion and re-creation spelled out on the shortest history: cached, deleted => TemplateNotFoundError,
+   written again => the new text (a version never seen before), for every configuration with auto-reload *)
+Theorem C23_deleted_then_recreated : forall c st g v,
+  awaitable_uptodate c = false -> missing_raises c = false -> auto_reload c = true -> detects c = true ->
+  slookup (srckey c g) st = Some v ->
+  run fixed c (init c st)
+      [Get g; Delete (fst (srckey c g)) (snd (srckey c g)); Get g; Edit (fst (srckey c g)) (snd (srckey c g)); Get g] =
+  [RT (fresh_tmpl c g v); RDone; RE ENotFound; RDone; RT (fresh_tmpl c g (N.succ v))].
+Proof. exact delete_recreate_history. Qed.
+Print Assumptions C23_deleted_then_recreated.
+
 (* the model's "cache entry without an object" outcome never occurs *)
 Theorem C23_never_internal : forall c st rs,
-  awaitable_uptodate c = false -> keys_injective c rs -> ~ In RInternal (run fixed c (init c st) rs).
+  awaitable_uptodate c = false -> missing_raises c = false -> keys_injective c rs -> ~ In RInternal (run fixed c (init c st) rs).
 Proof. exact never_internal. Qed.
 Print Assumptions C23_never_internal.
 
@@ -88,17 +102,18 @@ Definition n_xa : str := [120; 47; 97]%N.  (* "x/a" *)
 Definition uid : str := [117; 105; 100]%N.
 
 Definition cfg (aw : bool) : config :=
-  {| nk := uid; auto_reload := true; capacity := 1; aware := aw; detects := true; awaitable_uptodate := false; env_g := 0 |}.
+  {| nk := uid; auto_reload := true; capacity := 1; aware := aw; detects := true; awaitable_uptodate := false; missing_raises := false; env_g := 0 |}.
 Definition G (m : mode) (n : str) (kw : option str) (g : N) : request :=
   Get {| g_mode := m; g_name := n; g_kw := kw; g_ctx := None; g_globals := g |}.
-Definition st_ns : store := [((n_a, Some n_x), 0%N); ((n_a, Some n_y), 0%N); ((n_db, Some n_x), 0%N)].
-Definition st_plain : store := [((n_a, None), 0%N); ((n_db, None), 0%N); ((n_xa, None), 0%N)].
+Definition st_ns : store :=
+  [((n_a, Some n_x), (0%N, true)); ((n_a, Some n_y), (0%N, true)); ((n_db, Some n_x), (0%N, true))].
+Definition st_plain : store := [((n_a, None), (0%N, true)); ((n_db, None), (0%N, true)); ((n_xa, None), (0%N, true))].
 
 (* a history that satisfies every hypothesis of C23_transparent_partial and exercises hits, eviction, an edit
    and two namespaces *)
 Definition h1 : list request :=
   [G Sync n_a (Some n_x) 1; G Async n_a (Some n_x) 0; G Async n_a (Some n_y) 2; Edit n_a (Some n_x); G Sync n_a (Some n_x) 0;
-   G Async n_db (Some n_y) 0].
+   G Async n_db (Some n_y) 0; Delete n_a (Some n_x); G Async n_a (Some n_x) 0; Edit n_a (Some n_x); G Sync n_a (Some n_x) 2].
 Example C23_hypotheses_satisfiable :
   keys_injective_b (cfg true) h1 = true /\
   run fixed (cfg true) (init (cfg true) st_ns) h1 =
@@ -107,7 +122,8 @@ Example C23_hypotheses_satisfiable :
    RT {| t_name := n_a; t_src := (n_a, Some n_y); t_ver := 0; t_awaitable := false; t_globals := (0, 2)%N |};
    RDone;
    RT {| t_name := n_a; t_src := (n_a, Some n_x); t_ver := 1; t_awaitable := false; t_globals := (0, 0)%N |};
-   RE ENotFound].
+   RE ENotFound; RDone; RE ENotFound; RDone;
+   RT {| t_name := n_a; t_src := (n_a, Some n_x); t_ver := 2; t_awaitable := false; t_globals := (0, 2)%N |}].
 Proof. vm_compute. split; reflexivity. Qed.
 
 (* --- the defects found in the code as it was, one transcription variant each ---
@@ -145,14 +161,29 @@ Proof. vm_compute. split; [discriminate|reflexivity]. Qed.
 (* FileSystemLoader.get_source_async returned a coroutine function as `uptodate`: a template cached by
    get_template_async makes the next get_template raise LiquidError (is_up_to_date cannot await) *)
 Example C23_awaitable_uptodate_refuted :
-  let c := {| nk := []; auto_reload := true; capacity := 2; aware := false; detects := true; awaitable_uptodate := true; env_g := 0 |} in
+  let c := {| nk := []; auto_reload := true; capacity := 2; aware := false; detects := true; awaitable_uptodate := true; missing_raises := false; env_g := 0 |} in
   run fixed c (init c st_plain) [G Async n_a None 0; G Sync n_a None 0] =
   [RT {| t_name := n_a; t_src := (n_a, None); t_ver := 0; t_awaitable := true; t_globals := (0, 0)%N |}; RE ELiquid].
 Proof. vm_compute. reflexivity. Qed.
 
+(* FileSystemLoader._uptodate called stat() on a file that may be gone: with auto_reload on, a request for a
+   template whose file was deleted after it was cached raised FileNotFoundError (an OSError), where the
+   non-caching loader raises TemplateNotFoundError; sync and async alike *)
+Example C23_deleted_source_refuted :
+  let c := {| nk := []; auto_reload := true; capacity := 2; aware := false; detects := true; awaitable_uptodate := false;
+              missing_raises := true; env_g := 0 |} in
+  let h := [G Sync n_a None 0; Delete n_a None; G Sync n_a None 0; G Async n_a None 0] in
+  run fixed c (init c st_plain) h =
+    [RT {| t_name := n_a; t_src := (n_a, None); t_ver := 0; t_awaitable := false; t_globals := (0, 0)%N |};
+     RDone; RE EOSError; RE EOSError] /\
+  ref_run c st_plain h =
+    [RT {| t_name := n_a; t_src := (n_a, None); t_ver := 0; t_awaitable := false; t_globals := (0, 0)%N |};
+     RDone; RE ENotFound; RE ENotFound].
+Proof. vm_compute. split; reflexivity. Qed.
+
 (* DictLoader gave no uptodate callable: with auto_reload on, an edited source is never picked up *)
 Example C23_dict_never_reloads_refuted :
-  let c := {| nk := []; auto_reload := true; capacity := 2; aware := false; detects := false; awaitable_uptodate := false; env_g := 0 |} in
+  let c := {| nk := []; auto_reload := true; capacity := 2; aware := false; detects := false; awaitable_uptodate := false; missing_raises := false; env_g := 0 |} in
   let h := [G Sync n_a None 0; Edit n_a None; G Sync n_a None 0] in
   run fixed c (init c st_plain) h <> ref_run c st_plain h.
 Proof. vm_compute. discriminate. Qed.
